@@ -2,6 +2,7 @@
 
 import json
 import os
+import shutil
 import subprocess
 import sys
 import tempfile
@@ -52,7 +53,7 @@ TRUSTED = ['pbt/codecs.py (generators, server normaliser, modify-list '
            'interpreter, capture ZooKeeper stub)']
 BUDGET = {'quick': 16000, 'thorough': 640000}
 
-ATHERIS_RUNS = 400000
+ATHERIS_RUNS = 2000000
 ATHERIS_MAX_SECONDS = 60
 
 _FUZZ_SUMMARY = {}
@@ -192,9 +193,7 @@ def _atheris_cases():
             cases.append(('atheris-%s-%d' % (decoder, idx),
                           {'codec': 'fuzz', 'decoder': decoder,
                            'data': text}))
-    for name in os.listdir(outdir):
-        os.unlink(os.path.join(outdir, name))
-    os.rmdir(outdir)
+    shutil.rmtree(outdir, ignore_errors=True)
     return cases
 
 
